@@ -102,7 +102,11 @@ class World:
             else:
                 creg = region
             cats = [CSEPCatalog(data=list(evs), catalog_id=i, region=creg) for i, evs in enumerate(self.raw)]
-            return CatalogForecast(catalogs=cats, n_cat=len(cats), **kw)
+            # `catalogs` is documented as an iterable of catalogs: a list, a tuple, or a generator that is consumed (and, with the
+            # default store=True, cached) during the first pass
+            cont = self.case.get("cat_container", "list")
+            given = tuple(cats) if cont == "tuple" else (c for c in list(cats)) if cont == "generator" else cats
+            return CatalogForecast(catalogs=given, n_cat=len(cats), **kw)
         return csep.load_catalog_forecast(self.path, store=(self.src == "file_store"), **kw)
 
     def observation(self):
@@ -324,6 +328,7 @@ def cases(draw):
     ops = draw(st.lists(st.sampled_from(OPS), min_size=1, max_size=8))
     return {"setup": setup, "cats": cats, "config": list(config), "ops": ops, "verbose": draw(st.integers(0, 3)) == 0,
             **({"cat_region": draw(st.sampled_from(["none", "permuted"]))} if src == "list" and draw(st.booleans()) else {}),
+            **({"cat_container": draw(st.sampled_from(["generator", "generator", "tuple"]))} if src == "list" and draw(st.integers(0, 2)) == 0 else {}),
             **({"repeat": draw(st.sampled_from([20, 40]))} if draw(st.integers(0, 11)) == 0 else {})}
 
 
@@ -377,7 +382,7 @@ def run_machine(ctx, max_examples, steps):
         def teardown(self):
             if self.sess is not None and self.sess.hist:
                 case = dict(self.case, ops=list(self.sess.hist))
-                ctx.record(case, nontrivial(case), "machine:" + case["config"][0])
+                ctx.record(case, nontrivial(case), "machine:" + case["config"][0] + (":catalogs_as_" + case["cat_container"] if "cat_container" in case else ""))
             self.tmp.cleanup()
 
     run_state_machine_as_test(hypothesis.seed(ctx.hseed(7))(ForecastMachine),
@@ -403,6 +408,6 @@ def run(ctx):
 
     def fn(c, case):
         check_case(c, case)
-        c.record(case, nontrivial(case), "sampled:" + case["config"][0])
+        c.record(case, nontrivial(case), "sampled:" + case["config"][0] + (":catalogs_as_" + case["cat_container"] if "cat_container" in case else ""))
 
     ctx.drive(cases(), ctx.n(60, 800), fn=fn, salt=1)
